@@ -10,6 +10,7 @@ import (
 	"fmt"
 	"os"
 	"os/exec"
+	"os/signal"
 	"runtime"
 	"strconv"
 	"syscall"
@@ -124,6 +125,17 @@ func helperMain(args []string) {
 	switch args[0] {
 	case "call": // call <name> <path> <arg>
 		runtime.LockOSThread()
+		if s := os.Getenv("LF_FSIZE"); s != "" {
+			// a genuine short write followed by an error: with RLIMIT_FSIZE = n and SIGXFSZ
+			// ignored, a write crossing offset n stores the bytes up to n and the rest
+			// fails with EFBIG
+			n, _ := strconv.ParseUint(s, 10, 64)
+			signal.Ignore(syscall.SIGXFSZ)
+			if err := syscall.Setrlimit(syscall.RLIMIT_FSIZE, &syscall.Rlimit{Cur: n, Max: n}); err != nil {
+				fmt.Println("RESULT nolimit")
+				return
+			}
+		}
 		fmt.Println("BEGIN")
 		out := doCall(args[1], args[2], args[3])
 		fmt.Println("RESULT " + out)
